@@ -1,5 +1,256 @@
-import Nic.Model.Arb
-import Nic.Spec.Arb
+/-
+  C01 — one owner per host, chosen identically on every replica and in every
+  event order.  Property theorems only (helper lemmas: Nic/Lemmas/Beats.lean,
+  MapLemmas.lean, Owner.lean; model: Nic/Model/Arb.lean; spec: Nic/Spec/Arb.lean).
+-/
+import Nic.Lemmas.Owner
+
 namespace Nic.Arb
-theorem placeholder_c01 : True := trivial
+open Spec
+
+/-- Kubernetes' guarantee as it is needed here: the claimants of one host carry
+pairwise distinct UIDs (distinct live objects have distinct UIDs, and
+`validateIngressSpec` rejects an Ingress that lists a host twice). -/
+def DistinctClaims (o : Objs) : Prop :=
+  ∀ h, ((Spec.claims o).filter (fun c => c.host = h)).Pairwise (fun a b => a.md.uid ≠ b.md.uid)
+
+/-- The winner relation is a strict total order on resources with distinct UIDs:
+earliest creation time wins, ties broken by a fixed order on UIDs. -/
+theorem beats_strict_total (a b c : Meta) :
+    beats a a = false ∧ (beats a b = true → beats b a = false) ∧
+    (beats a b = true → beats b c = true → beats a c = true) ∧
+    (a.uid ≠ b.uid → beats a b = true ∨ beats b a = true) ∧
+    (a.ts < b.ts → beats a b = true) :=
+  ⟨beats_irrefl a, beats_asymm, beats_trans, beats_total, fun h => by rw [beats_iff]; omega⟩
+
+private theorem eq_of_pairwise_uid {l : List Claim}
+    (hp : l.Pairwise (fun a b => a.md.uid ≠ b.md.uid)) {a b : Claim}
+    (ha : a ∈ l) (hb : b ∈ l) (he : a.md.uid = b.md.uid) : a = b := by
+  induction l with
+  | nil => cases ha
+  | cons x r ih =>
+    rw [List.pairwise_cons] at hp
+    rcases List.mem_cons.mp ha with rfl | ha' <;> rcases List.mem_cons.mp hb with rfl | hb'
+    · rfl
+    · exact absurd he (hp.1 b hb')
+    · exact absurd he.symm (hp.1 a ha')
+    · exact ih hp.2 ha' hb'
+
+/-- `Spec.champion` (the first claim that beats all claims with another UID) is the
+champion in the sense of the fold lemma. -/
+private theorem champion_spec {l : List Claim} {c : Claim} (h : Spec.champion l = some c) :
+    IsChampion Claim.md l c := by
+  unfold Spec.champion at h
+  have hm := List.mem_of_find?_eq_some h
+  have hp := List.find?_some h
+  refine ⟨hm, fun x hx hne => ?_⟩
+  have := (List.all_eq_true.mp hp) x hx
+  simp only [Bool.or_eq_true, decide_eq_true_eq] at this
+  rcases this with e | e
+  · exact absurd e hne
+  · exact e
+
+/-- **Ownership.** For every object set whose claimants are distinguishable, the host map
+built by `buildHostsAndResources` assigns each host to exactly `Spec.owner`: the
+claimant (Ingress rule host, VirtualServer host, passthrough TransportServer host)
+that beats every other claimant of that host.  In particular every host has at
+most one owner and that owner is the oldest claimant, ties broken by UID. -/
+theorem buildHosts_eq_spec (o : Objs) (hd : DistinctClaims o) (h : String) :
+    (buildHosts o).holderKey h = Spec.owner o h := by
+  unfold Build.holderKey Spec.owner
+  rw [buildHosts_hosts, get?_fold_ostep]
+  have hd' := hd h
+  generalize (Spec.claims o).filter (fun c => c.host = h) = L at hd'
+  cases L with
+  | nil => simp [Map.get?, Spec.champion]
+  | cons x r =>
+    simp only [Map.get?, List.map_cons, List.foldl_cons, hstep]
+    have hpw : (pairOf x :: r.map pairOf).Pairwise (fun a b => (Prod.snd a).uid ≠ (Prod.snd b).uid) := by
+      have : ((x :: r).map pairOf).Pairwise (fun a b => (Prod.snd a).uid ≠ (Prod.snd b).uid) := by
+        rw [List.pairwise_map]; exact hd'
+      simpa using this
+    obtain ⟨c, hc, hmem, hbeat⟩ := fold_hstep_champion Prod.snd (pairOf x) (r.map pairOf) hpw
+    rw [hc]
+    -- c = pairOf c₀ for a claim c₀ of the list, and c₀ satisfies the Spec's champion test
+    have hmem' : c ∈ (x :: r).map pairOf := by simpa using hmem
+    obtain ⟨c0, hc0, rfl⟩ := List.mem_map.mp hmem'
+    have hP : ((x :: r).all fun c' => c'.md.uid = c0.md.uid || beats c0.md c'.md) = true := by
+      rw [List.all_eq_true]
+      intro y hy
+      by_cases e : y.md.uid = c0.md.uid
+      · simp [e]
+      · have := hbeat (pairOf y) (by simpa using List.mem_map_of_mem (f := pairOf) hy) (by simpa [pairOf] using e)
+        simp [pairOf] at this; simp [this]
+    -- so `find?` finds some champion c1, which must be c0
+    cases hf : Spec.champion (x :: r) with
+    | none =>
+      unfold Spec.champion at hf
+      have := List.find?_eq_none.mp hf c0 hc0
+      simp [hP] at this
+    | some c1 =>
+      have h1 := champion_spec hf
+      have h0 : IsChampion Claim.md (x :: r) c0 := by
+        refine ⟨hc0, fun y hy hne => ?_⟩
+        have := (List.all_eq_true.mp hP) y hy
+        simp only [Bool.or_eq_true, decide_eq_true_eq] at this
+        rcases this with e | e
+        · exact absurd e hne
+        · exact e
+      have hu := champion_unique Claim.md h1 h0
+      have : c1 = c0 := eq_of_pairwise_uid hd' h1.1 hc0 hu
+      subst this
+      simp [pairOf]
+
+/-- The owner is a claimant of the host and beats every other claimant of it. -/
+theorem owner_is_champion (o : Objs) (h k : String) (hk : Spec.owner o h = some k) :
+    ∃ c ∈ Spec.claims o, c.host = h ∧ c.key = k ∧
+      ∀ c' ∈ Spec.claims o, c'.host = h → c'.md.uid ≠ c.md.uid → beats c.md c'.md = true := by
+  unfold Spec.owner at hk
+  cases hc : Spec.champion ((Spec.claims o).filter (fun c => c.host = h)) with
+  | none => simp [hc] at hk
+  | some c =>
+    simp [hc] at hk
+    obtain ⟨hm, hb⟩ := champion_spec hc
+    have hm' := List.mem_filter.mp hm
+    refine ⟨c, hm'.1, by simpa using hm'.2, hk, fun c' hc' hh hne => ?_⟩
+    exact hb c' (List.mem_filter.mpr ⟨hc', by simpa using hh⟩) hne
+
+/-- The owner depends only on *which* claims exist, not on the order they are
+enumerated in (key order of the stores, kinds, …): any rearrangement of the
+claim list with the same members has the same champion (up to UID). -/
+theorem owner_order_free (l l' : List Claim) (hp : ∀ x, x ∈ l ↔ x ∈ l') (c c' : Claim)
+    (h : Spec.champion l = some c) (h' : Spec.champion l' = some c') : c.md.uid = c'.md.uid :=
+  champion_unique Claim.md (champion_perm Claim.md hp (champion_spec h)) (champion_spec h')
+
+/-! ### every operation recomputes ownership from the object set -/
+
+/-- What `Configuration.hosts` must be for an object set. -/
+def hostsOf (o : Objs) : Map Res := resolveHosts (listenerWarnings o (buildHosts o))
+
+def Inv (s : State) : Prop := s.hosts = hostsOf s.toObjs
+
+theorem rebuildHosts_objs (s : State) : (rebuildHosts s).1.toObjs = s.toObjs := rfl
+theorem rebuildHosts_hosts (s : State) : (rebuildHosts s).1.hosts = hostsOf s.toObjs := rfl
+theorem rebuildListenerHosts_objs (s : State) (ord) : (rebuildListenerHosts s ord).1.toObjs = s.toObjs := rfl
+theorem rebuildListenerHosts_hosts (s : State) (ord) : (rebuildListenerHosts s ord).1.hosts = s.hosts := rfl
+
+theorem rebuildHosts_inv (s : State) : Inv (rebuildHosts s).1 := by
+  unfold Inv; rw [rebuildHosts_hosts, rebuildHosts_objs]
+
+/-- TransportServers do not influence host ownership while TLS passthrough is disabled
+(that is why `AddOrUpdateTransportServer` may skip `rebuildHosts` then). -/
+theorem hostsOf_tss_irrelevant (o : Objs) (t : Map TS) (hp : o.cfg.passthrough = false) :
+    hostsOf { o with tss := t } = hostsOf o := by
+  unfold hostsOf buildHosts buildTss
+  simp only [hp, Bool.not_false, if_true]
+  rfl
+
+theorem tsBoth_inv (s : State) (ord) (h : s.cfg.passthrough = true ∨ Inv s) : Inv (tsBoth s ord).1 := by
+  unfold tsBoth
+  by_cases hp : (rebuildListenerHosts s ord).1.cfg.passthrough = true
+  · simp only [hp, if_true]
+    exact rebuildHosts_inv _
+  · have hp' : s.cfg.passthrough = false := by
+      have : (rebuildListenerHosts s ord).1.cfg = s.cfg := rfl
+      rw [this] at hp; simpa using hp
+    have hp2 : (rebuildListenerHosts s ord).1.cfg.passthrough = false := by
+      have : (rebuildListenerHosts s ord).1.cfg = s.cfg := rfl
+      rw [this]; exact hp'
+    simp only [hp2, Bool.false_eq_true, if_false]
+    rcases h with h | h
+    · rw [h] at hp'; cases hp'
+    · unfold Inv; rw [rebuildListenerHosts_hosts, rebuildListenerHosts_objs]; exact h
+
+theorem gcBoth_inv (s : State) (ord) : Inv (gcBoth s ord).1 := by
+  unfold gcBoth; exact rebuildHosts_inv _
+
+/-- **Rebuild on every mutation**: each public operation leaves
+`hosts = hostsOf(current objects)`, including the branch that skips the host
+rebuild for TransportServer events when passthrough is off. -/
+theorem step_inv (perm) (s : State) (op : Op) (h : Inv s) : Inv (step perm s op).1 := by
+  cases op with
+  | ing i cls valid =>
+    simp only [step]
+    split <;> (try split) <;> exact rebuildHosts_inv _
+  | vs v cls valid =>
+    simp only [step]
+    split <;> (try split) <;> exact rebuildHosts_inv _
+  | vsr r cls valid =>
+    simp only [step]
+    split <;> (try split) <;> exact rebuildHosts_inv _
+  | ts t cls valid =>
+    simp only [step]
+    have key : ∀ (m : Map TS), Inv (tsBoth { s with tss := m } (perm m)).1 := by
+      intro m
+      apply tsBoth_inv
+      by_cases hp : s.cfg.passthrough = true
+      · exact Or.inl hp
+      · refine Or.inr ?_
+        have hp' : s.cfg.passthrough = false := by simpa using hp
+        unfold Inv
+        show s.hosts = hostsOf { s.toObjs with tss := m }
+        rw [hostsOf_tss_irrelevant _ _ hp']; exact h
+    split <;> (try split) <;> first | exact key _
+  | gc ls => simp only [step]; exact gcBoth_inv _ _
+  | delIng k => simp only [step]; split <;> first | exact rebuildHosts_inv _ | exact h
+  | delVs k => simp only [step]; split <;> first | exact rebuildHosts_inv _ | exact h
+  | delVsr k => simp only [step]; split <;> first | exact rebuildHosts_inv _ | exact h
+  | delTs k =>
+    simp only [step]
+    split
+    · apply tsBoth_inv
+      by_cases hp : s.cfg.passthrough = true
+      · exact Or.inl hp
+      · refine Or.inr ?_
+        have hp' : s.cfg.passthrough = false := by simpa using hp
+        unfold Inv
+        show s.hosts = hostsOf { s.toObjs with tss := _ }
+        rw [hostsOf_tss_irrelevant _ _ hp']; exact h
+    · exact h
+  | delGc => simp only [step]; exact gcBoth_inv _ _
+
+theorem run_inv (perm) (s : State) (ops : List Op) (h : Inv s) : Inv (run perm s ops) := by
+  unfold run
+  induction ops generalizing s with
+  | nil => exact h
+  | cons a r ih => simp only [List.foldl_cons]; exact ih _ (step_inv perm s a h)
+
+theorem init_inv (cfg : Cfg) : Inv { toObjs := { cfg := cfg } } := by
+  unfold Inv hostsOf; cases hp : cfg.passthrough <;> simp [buildHosts, buildIngs, buildVss, buildTss, hp] <;> rfl
+
+/-- **History independence.** Two arbitrary finite histories (any mix of add / update /
+invalidate / class-change / delete events over all kinds and the GlobalConfiguration,
+any Go map iteration orders) that end in the same object set end with the same host
+table — hence the same owner for every host and the same per-host validity marks. -/
+theorem history_independent (p₁ p₂) (cfg : Cfg) (h₁ h₂ : List Op)
+    (he : (run p₁ { toObjs := { cfg := cfg } } h₁).toObjs = (run p₂ { toObjs := { cfg := cfg } } h₂).toObjs) :
+    (run p₁ { toObjs := { cfg := cfg } } h₁).hosts = (run p₂ { toObjs := { cfg := cfg } } h₂).hosts := by
+  have i1 := run_inv p₁ _ h₁ (init_inv cfg)
+  have i2 := run_inv p₂ _ h₂ (init_inv cfg)
+  unfold Inv at i1 i2
+  rw [i1, i2, he]
+
+/-- After any history the owner of every host is the Spec's owner for the final object set. -/
+theorem owner_after_history (p) (cfg : Cfg) (ops : List Op) (h : String)
+    (hd : DistinctClaims (run p { toObjs := { cfg := cfg } } ops).toObjs) :
+    (run p { toObjs := { cfg := cfg } } ops).hosts = hostsOf (run p { toObjs := { cfg := cfg } } ops).toObjs ∧
+    (buildHosts (run p { toObjs := { cfg := cfg } } ops).toObjs).holderKey h =
+      Spec.owner (run p { toObjs := { cfg := cfg } } ops).toObjs h :=
+  ⟨run_inv p _ ops (init_inv cfg), buildHosts_eq_spec _ hd h⟩
+
+/-! ### non-vacuity -/
+
+private def mA : Meta := { ns := "d", name := "a", uid := 1, ts := 5, gen := 1 }
+private def mB : Meta := { ns := "d", name := "b", uid := 2, ts := 5, gen := 1 }   -- same time, greater UID: wins the tie
+private def mC : Meta := { ns := "d", name := "c", uid := 3, ts := 9, gen := 1 }
+private def o3 : Objs :=
+  { ings := [("d/a", { md := mA, kind := .regular, chal := false, rules := [("x.ex", []), ("y.ex", [])] })],
+    vss := [("d/b", { md := mB, host := "x.ex", routes := [], listener := none })],
+    tss := [("d/c", { md := mC, lname := "tls-passthrough", proto := "TLS_PASSTHROUGH", host := "y.ex" })] }
+
+example : (buildHosts o3).holderKey "x.ex" = some "VirtualServer/d/b" := by decide
+example : (buildHosts o3).holderKey "y.ex" = some "Ingress/d/a" := by decide      -- wins one host, loses the other
+example : Spec.owner o3 "x.ex" = some "VirtualServer/d/b" ∧ Spec.owner o3 "y.ex" = some "Ingress/d/a" := by decide
+example : beats mB mA = true ∧ beats mA mC = true := by decide
+
 end Nic.Arb
